@@ -2,8 +2,8 @@ package h
 
 import (
 	"bytes"
-	"encoding/json"
 	"crypto/sha1"
+	"encoding/json"
 	"fmt"
 	"net/http"
 	"os"
@@ -23,17 +23,17 @@ func init() {
 }
 
 type c06Req struct {
-	ID        int
-	Client    string
-	Case      *signCase
-	Key       string
-	Status    int
-	Body      []byte
-	CType     string
-	Fault     string // sink fault injected during this request ("" none)
+	ID                int
+	Client            string
+	Case              *signCase
+	Key               string
+	Status            int
+	Body              []byte
+	CType             string
+	Fault             string // sink fault injected during this request ("" none)
 	RecordAtFirstByte string
-	Final     bool
-	Start     time.Duration
+	Final             bool
+	Start             time.Duration
 }
 
 var c06Mods = []string{"ps", "pgp", "jar", "cat", "appmanifest", "pe-coff", "msi"}
@@ -275,11 +275,11 @@ func c06Run(r *core.Run) {
 			id := pkiFor(rq.Key)
 			sum := sha1.Sum(id.Cert.Raw)
 			want := map[string]string{
-				"sig.keyname":      keyTarget[rq.Key],
-				"sig.type":         c.Mod,
-				"sig.hash":         c.HashName,
-				"client.filename":  c.File,
-				"client.ip":        "192.0.2." + rq.Client[len(rq.Client)-1:],
+				"sig.keyname":          keyTarget[rq.Key],
+				"sig.type":             c.Mod,
+				"sig.hash":             c.HashName,
+				"client.filename":      c.File,
+				"client.ip":            "192.0.2." + rq.Client[len(rq.Client)-1:],
 				"sig.x509.fingerprint": fmt.Sprintf("%x", sum[:]),
 			}
 			if rq.Client[len(rq.Client)-1]%2 == 1 {
